@@ -337,7 +337,7 @@ def main(argv=None):
         modname = "mc.props." + prop.lower()
         mod = importlib.import_module(modname)
         chk = Check(prop, tier, modname)
-        mod.explore(chk)
+        (getattr(mod, 'run', None) or mod.explore)(chk)
         return chk.finish()
     except Harness as e:
         print("HARNESS %s: %s" % (prop, e))
